@@ -555,7 +555,22 @@ class HexInt:
     def __ge__(self, o):
         return self._cmp(o, z3.UGE)
 
+    def __mod__(self, k):
+        if isinstance(k, int) and k > 0:
+            bits = max(4 * len(self.nibs), (k.bit_length() + 3) // 4 * 4)
+            return HexInt.from_bv(z3.simplify(z3.URem(self.bv(bits), z3.BitVecVal(k, bits))))
+        raise Unsupported('symbolic hex integer modulo %r' % (k,))
+
+    def __floordiv__(self, k):
+        if isinstance(k, int) and k > 0:
+            bits = max(4 * len(self.nibs), (k.bit_length() + 3) // 4 * 4)
+            return HexInt.from_bv(z3.simplify(z3.UDiv(self.bv(bits), z3.BitVecVal(k, bits))))
+        raise Unsupported('symbolic hex integer divided by %r' % (k,))
+
     def __and__(self, k):
+        if isinstance(k, int) and k >= 0 and (k + 1) & k == 0 and k not in (0x0f, 0xf0) and k.bit_length() % 4 == 0:
+            n = k.bit_length() // 4             # a mask of n low hex digits
+            return HexInt(self.nibs[-n:]) if n else HexInt([z3.BitVecVal(0, 4)])
         if isinstance(k, int) and k == 0x0f:
             return HexInt(self.nibs[-1:])
         if isinstance(k, int) and k == 0xf0 and len(self.nibs) >= 2:
